@@ -105,12 +105,20 @@ func genSection(nq, nw int) *rapid.Generator[[]Op] {
 
 func gen(t *rapid.T, engine string) Case {
 	c := Case{Engine: engine}
+	if rapid.IntRange(0, 2).Draw(t, "elem") == 0 {
+		c.Elem = "empty"
+	}
 	nq := rapid.SampledFrom([]int{1, 1, 2, 2, 2, 3}).Draw(t, "nq")
 	for i := 0; i < nq; i++ {
 		c.Queues = append(c.Queues, QueueCfg{
 			Max:  rapid.SampledFrom([]int{1, 1, 1, 2, 2, 3}).Draw(t, "max"),
 			Next: rapid.SampledFrom([]string{"", "data"}).Draw(t, "next"),
 		})
+	}
+	if c.Elem == "empty" {
+		for i := range c.Queues {
+			c.Queues[i].Next = ""
+		}
 	}
 	nw := rapid.IntRange(2, 5).Draw(t, "nw")
 	sg := genSection(nq, nw)
@@ -163,6 +171,11 @@ func checkInc(c Case, ev *evid.Collector, runs int) (*evid.Violation, string) {
 	labels := map[string]bool{}
 	add := func(l string) { labels[l] = true }
 	add("engine:" + c.Engine)
+	if c.Elem == "empty" {
+		add("elem:empty-struct")
+	} else {
+		add("elem:reqmeta.Data")
+	}
 	add(fmt.Sprintf("queues=%d", len(c.Queues)))
 	add(fmt.Sprintf("workers=%d", len(c.Workers)))
 	for _, q := range c.Queues {
